@@ -81,8 +81,8 @@ class Monitor:
 
 
 def str_snapshot(cache):
-    return {k: (v if type(v) in (bytes, str, int, float, bool) else repr(v)) for k, v in cache.items()
-            if type(k) is str and k != 'returned'}
+    # values are rendered (type name + repr), so an in-place change of a mutable value (bytearray, list) shows
+    return {k: (type(v).__name__, repr(v)) for k, v in cache.items() if type(k) is str and k != 'returned'}
 
 
 def direct_oracles(script, cache_vals, cfg, want):
@@ -124,6 +124,35 @@ def direct_oracles(script, cache_vals, cfg, want):
             diff = {k: (before.get(k), after.get(k)) for k in set(before) | set(after) if before.get(k) != after.get(k)}
             out['C08'] = ['str-keyed cache entries changed: ' + repr(diff)[:300]]
     return out
+
+
+def c08_alias_probes():
+    """Directed search for a script that alters a str-keyed entry through a value fetched with OP_GET_VALUE:
+    every opcode applied to (fetched value, other operand) in both orders, the value being each mutable or
+    immutable kind an embedder may store.  Returns (violations, runs)."""
+    _init()
+    cfg = tsh.Cfg()
+    viol, runs = [], 0
+    kinds = [('ba', lambda: bytearray(b'\x0f\xf0\x01')), ('bs', lambda: b'\x0f\xf0\x01'),
+             ('lst', lambda: [b'\x01', bytearray(b'\x02\x03')]), ('txt', lambda: 'abc'), ('num', lambda: 7)]
+    others = [b'\x01' * 9, b'\x01', b'\x01\x02\x03', b'']
+    gv = lambda k: bytes([gen.OPC['OP_GET_VALUE'], len(k)]) + k.encode()
+    psh = lambda b: bytes([gen.OPC['OP_PUSH1'], len(b)]) + b
+    for key, mk in kinds:
+        for code in range(256):
+            for other in others:
+                for order in (0, 1):
+                    body = (gv(key) + psh(other)) if order == 0 else (psh(other) + gv(key))
+                    script = body + bytes([code, 1, 1, 1])
+                    runs += 1
+                    try:
+                        r = direct_oracles(script, {key: mk(), 'sigfield1': b'm'}, cfg, ('C08',))
+                    except Exception:
+                        continue
+                    if r.get('C08') and len(viol) < 4:
+                        viol.append(dict(case=dict(script=script.hex(), cache_repr=repr({key: mk(), 'sigfield1': b'm'})),
+                                         what=r['C08'][0]))
+    return viol, runs
 
 
 # ---------------------------------------------------------------- one task
